@@ -36,6 +36,7 @@ import LinVerif.Model.LeafCollect
 import LinVerif.Model.RowRoute
 import LinVerif.Model.TaskMgr
 import LinVerif.Model.C12LeafFilter
+import LinVerif.Model.C12FieldWire
 import LinVerif.Generated.C12
 
 namespace LinVerif.Driver.C12
@@ -532,6 +533,14 @@ def doFilter (ws : List String) : String :=
     | _, _ => "bad-op"
   | _ => "bad-op"
 
+/-- where `fieldIterator.MarshalBinary` declares its running slot index (read from the source):
+every payload a node sends is shown as the receiver decodes it (Model/C12FieldWire.lean) -/
+def wireResetIdx : Bool := decide (Generated.C12.fieldMarshalIdxDepth = 1)
+
+def overWire : Resp → Resp
+  | .ok p => .ok (C12FieldWire.wirePayload wireResetIdx p)
+  | r => r
+
 def step (st : DSt) (ws : List String) : DSt × String :=
   match ws with
   | ["plan", a, s, sc] =>
@@ -575,7 +584,7 @@ def step (st : DSt) (ws : List String) : DSt × String :=
     match id.toNat? with
     | some id =>
       match getCtx st id with
-      | some c => if c.done then (st, showResp st c.taskResponse) else (st, "pending")
+      | some c => if c.done then (st, showResp st (overWire c.taskResponse)) else (st, "pending")
       | none => (st, "bad-op")
     | none => (st, "bad-op")
   | "leaf" :: r :: cap :: toks =>
@@ -585,7 +594,7 @@ def step (st : DSt) (ws : List String) : DSt × String :=
       let pay := leafPayload variant p.specs cap p.series
       let h : Tag → Nat := fun t => ((p.hashes.find? (fun q => q.1 == t)).map Prod.snd).getD 0
       let outs := if r = 1 then [pay] else splitByHash h r pay
-      (st', " | ".intercalate (outs.map (showPayload st')))
+      (st', " | ".intercalate (outs.map (fun o => showPayload st' (C12FieldWire.wirePayload wireResetIdx o))))
     | _, _, _ => (st, "bad-op")
   | ["result", id, a, l, s, o] =>
     match id.toNat?, kv a "all", kv l "limit", kv s "sel", kv o "ord" with
